@@ -29,7 +29,8 @@ def cfgs(ctx):
         tops4 = [F.L(("a", "b"), ("b", "c"), ("c", "d")), F.L(("a", "b"), ("a", "c"), ("a", "d")),
                  F.L(("a", "b"), ("b", "c"), ("c", "d"), ("a", "d")), F.L(("a", "b"), ("b", "c"), ("a", "c"), ("c", "d")),
                  F.L(("a", "b"), ("b", "c"), ("c", "d"), ("a", "d"), ("a", "c")), F.L(*k4)]
-        out.append(F.base("c11-stable4", F.A4, F.L(*k4), initups=tops4, exits=[[]], routeids=[], announcers=["a"], exp=1, dup=1))
+        out.append(F.base("c11-stable4", F.A4, F.L(*k4), initups=tops4, exits=[[]], routeids=[], announcers=["a"], exp=1, dup=1, replay=False))
+        out.append(F.base("c11-stable4r", F.A4, F.L(*k4), initups=tops4, exits=[[]], routeids=[], announcers=["a"], exp=1))
         out.append(F.base("c11-dyn3", F.A3, t3, initups=[l2], exits=[["a"]], announcers=["a"], conn=2, disc=1, exp=1, replay=False))
         out.append(F.base("c11-dyn3r", F.A3, t3, initups=[l3], exits=[["a"]], announcers=["a"], conn=1, disc=1))
     return out
@@ -42,7 +43,7 @@ def run(ctx):
     if not ctx.quick():
         ring5 = [sorted(p) for p in (("a", "b"), ("b", "c"), ("c", "d"), ("d", "e"), ("a", "e"), ("a", "c"))]
         sim = F.simulate(ctx, F.base("c11-ring5", ["a", "b", "c", "d", "e"], ring5, initups=[ring5[:5], ring5[:4]], exits=[["a"]],
-                                     announcers=["a", "c"], maxann=2, conn=2, disc=1, exp=3, dup=3, age=1), num=3000, depth=80)
+                                     announcers=["a", "c"], maxann=2, conn=2, disc=1, exp=3, dup=3, age=1), num=800, depth=80)
     rep = F.replay(ctx, runs)
     ntr, nops = (25, 50) if ctx.quick() else (1200, 100)
     tr = F.traces(ctx, "TestZZVFloodTrace", {"ZZV_TRACES": ntr, "ZZV_OPS": nops}, "c11trace")
@@ -57,5 +58,5 @@ def run(ctx):
                  exhaustive=True, replayed_paths=rep["paths"], replayed_steps=rep["steps"], replay_edges=rep["edges"],
                  replay_forks=rep["forks"], replay_mismatches=len(rep["mismatches"]),
                  trace_events=tr["summary"]["events"], trace_highwater=tr["v"]["hw"], trace_accepted=tr["v"]["accepted"],
-                 simulated_states=(sim.generated if sim else 0),
+                 simulated_states=(sim.generated if sim else 0), simulated_traces=(sim.traces if sim else 0),
                  deviations_caught=caught, samples=rep["samples"] + [{"random_schedule": s} for s in tr["summary"]["sample"][:2]])
